@@ -373,6 +373,11 @@ class RankRun:
                     pending_omp = low
                 if low.startswith("!$omp parallel") and \
                         not low.startswith("!$omp parallel do"):
+                    if self.loop_depth == 0 and \
+                            self.sim.region_depth.get(self.r, 0) == 0:
+                        # the consistent cut before the region as a whole
+                        yield ("sync", self.nsync)
+                        self.nsync += 1
                     self.sim.note_region(self.r, "enter", low)
                 if low.startswith("!$omp end parallel") and \
                         not low.startswith("!$omp end parallel do"):
@@ -398,9 +403,13 @@ class RankRun:
                 if self.loop_depth == 0:
                     # instrumentation only: all ranks line up before every
                     # top-level loop nest so that the flags-vs-data
-                    # invariant can be evaluated on a consistent cut
-                    yield ("sync", self.nsync)
-                    self.nsync += 1
+                    # invariant can be evaluated on a consistent cut - but
+                    # not between the loops of one OpenMP parallel region:
+                    # their set_dirty/set_clean calls come after the region,
+                    # so the state is only *recorded* there
+                    if self.sim.region_depth.get(self.r, 0) == 0:
+                        yield ("sync", self.nsync)
+                        self.nsync += 1
                     self.sim.take_snapshot(self.r)
                 self.loop_depth += 1
                 if par:
